@@ -146,7 +146,7 @@ func (d *CSVDecoder) Decode(data []byte, _ ...any) (any, error) {
 	buffers.fieldIndexes = buffers.fieldIndexes[:0]
 parseField:
 	for {
-		if data[0] != quoteChar {
+		if len(data) == 0 || data[0] != quoteChar {
 			// Non-quoted string field
 			i := bytes.IndexByte(data, d.params.delimiter)
 			field := data
